@@ -323,9 +323,12 @@ fn crash(args: &[String]) {
     let mut groups: HashMap<u64, u64> = HashMap::new();
     for k in 0..n {
         let g = GenCfg { max_nodes: 8, max_ops: 10, allow_fw: true, allow_proj: true, allow_ext: false, allow_group: true, restarts: true, cyclic: false, layered: false };
-        let s = gen_scenario(&mut r, &g);
+        // every other history comes from the structured generator (firewalls, projections over them, normal queries
+        // on top): there a request consists of many consecutive logical batches (firewall publication, its dirt, its
+        // pending mark, the projections, the queries above), which is where a cut between two of them matters
+        let s = if k % 2 == 1 { gen_scenario_tfc(&mut r, true, k % 4 == 3, k % 8 >= 4) } else { gen_scenario(&mut r, &g) };
         let cap = *r.pick(&[1u64, 2, 4, 64]);
-        let group_max = r.below(4);
+        let group_max = if k % 2 == 1 { 1 + r.below(2) } else { r.below(4) };
         *groups.entry(group_max).or_default() += 1;
         let disk = Shared::new();
         disk.group_max.store(group_max, Ordering::SeqCst);
